@@ -497,9 +497,9 @@ class Qcow2Suite(Suite):
 
     def generate(self, rng, tier):
         if self.bigbuf:
-            n = 300 if tier == "thorough" else 30
+            n = 300 if tier == "thorough" else 40
         else:
-            n = 3000 if tier == "thorough" else 120
+            n = 3000 if tier == "thorough" else 220
         return [gen_case(rng, tier, self.bigbuf) for _ in range(n)]
 
     # -- implementation side (worker process)
